@@ -299,7 +299,7 @@ func genRounds(r *Rand, nRounds int, eedPct, envPct int, hooks bool) []rRound {
 func genRoundsPlan(r *Rand, eedPct, envPct int, hooks bool) *roundsPlan {
 	p := &roundsPlan{Knobs: GenKnobs(r)}
 	p.Rounds = genRounds(r, 1+r.Intn(6), eedPct, envPct, hooks)
-	p.QueueSize = Pick(r, []int{1, 2, 5, 100})
+	p.QueueSize = Pick(r, []int{0, 1, 2, 5, 100})
 	p.Async = r.Pct(60)
 	if r.Pct(30) {
 		for k := 0; k < 30; k++ {
